@@ -119,7 +119,7 @@ Print Assumptions C13_copy_no_orphans.
    selected columns and rows are contiguous (always the case for an axis-aligned grid and a box), its counts are
    last - first + 1: the smallest rectangle covering the selected cells *)
 Theorem C13_subgrid_minimal : forall nu sel g lastu lastv,
-  grid_select nu sel = Some g ->
+  grid_select false nu sel = Some g ->
   contiguous (col_any sel nu) -> contiguous (row_any sel) ->
   nth_error (col_any sel nu) lastu = Some true -> (forall i, lastu < i -> nth_error (col_any sel nu) i <> Some true) ->
   nth_error (row_any sel) lastv = Some true -> (forall i, lastv < i -> nth_error (row_any sel) i <> Some true) ->
@@ -131,12 +131,12 @@ Print Assumptions C13_subgrid_minimal.
 
 (* REFUTED without contiguity (possible for rotated grids, whose selected centroids need not fill whole columns): the count is
    the number of selected columns, not the width of their bounding interval *)
-Definition C13_subgrid_minimal_full : Prop := forall nu sel g lastu,
-  grid_select nu sel = Some g ->
+Definition C13_subgrid_minimal_full (fill : bool) : Prop := forall nu sel g lastu,
+  grid_select fill nu sel = Some g ->
   nth_error (col_any sel nu) lastu = Some true -> (forall i, lastu < i -> nth_error (col_any sel nu) i <> Some true) ->
   sg_nu g = lastu - sg_u0 g + 1.
 
-Theorem C13_subgrid_minimal_refuted : ~ C13_subgrid_minimal_full.
+Theorem C13_subgrid_minimal_refuted : ~ C13_subgrid_minimal_full false.
 Proof.
   intros A. destruct grid_select_gap as [g (G & U0 & NU & L)].
   assert (H : sg_nu g = 2 - sg_u0 g + 1).
@@ -145,6 +145,25 @@ Proof.
   rewrite NU, U0 in H. discriminate.
 Qed.
 Print Assumptions C13_subgrid_minimal_refuted.
+
+(* REPAIRED code (fixes/C13-grid-subgrid-gap.patch fills the span between the first and last selected column / row): the
+   sub-grid is the bounding rectangle of the selected cells for every selection, no contiguity needed *)
+Theorem C13_subgrid_minimal_repaired : forall nu sel g lastu lastv,
+  grid_select true nu sel = Some g ->
+  nth_error (col_any sel nu) lastu = Some true -> (forall i, lastu < i -> nth_error (col_any sel nu) i <> Some true) ->
+  nth_error (row_any sel) lastv = Some true -> (forall i, lastv < i -> nth_error (row_any sel) i <> Some true) ->
+  nth_error (col_any sel nu) (sg_u0 g) = Some true /\ (forall i, i < sg_u0 g -> nth_error (col_any sel nu) i = Some false) /\
+  nth_error (row_any sel) (sg_v0 g) = Some true /\ (forall i, i < sg_v0 g -> nth_error (row_any sel) i = Some false) /\
+  sg_nu g = lastu - sg_u0 g + 1 /\ sg_nv g = lastv - sg_v0 g + 1.
+Proof. exact grid_select_minimal_repaired. Qed.
+Print Assumptions C13_subgrid_minimal_repaired.
+
+(* every selected cell lies in a selected column and row, i.e. inside that rectangle *)
+Theorem C13_subgrid_covers : forall rows nu j row i,
+  i < nu -> nth_error rows j = Some row -> nth i row false = true ->
+  nth_error (col_any rows nu) i = Some true /\ nth_error (row_any rows) j = Some true.
+Proof. exact selected_cell_covered. Qed.
+Print Assumptions C13_subgrid_covers.
 
 (* ------------------------------------------------------------------ non-vacuity *)
 (* a surface whose first triangle lies in the 2-D box [0,1]x[0,1] (points on the boundary count; z is ignored) and whose second
@@ -167,9 +186,14 @@ Proof.
 Qed.
 
 (* an axis-aligned selection: rows 1-2, columns 1-3 of a 4 x 3 grid *)
+(* the refuting selection (columns 0 and 2 of one row) under the repaired computation: 3 columns from column 0 *)
+Example C13_grid_gap_repaired :
+  exists g, grid_select true 3 gap_rows = Some g /\ sg_u0 g = 0 /\ sg_nu g = 3 /\ sg_nv g = 1.
+Proof. eexists. split; [vm_compute; reflexivity|]. simpl. auto. Qed.
+
 Example C13_grid_nonvacuous :
   let sel := [[false;false;false;false];[false;true;true;true];[false;true;true;true]] in
-  exists g, grid_select 4 sel = Some g /\ sg_u0 g = 1 /\ sg_v0 g = 1 /\ sg_nu g = 3 /\ sg_nv g = 2 /\
+  exists g, grid_select false 4 sel = Some g /\ sg_u0 g = 1 /\ sg_v0 g = 1 /\ sg_nu g = 3 /\ sg_nv g = 2 /\
             contiguous (col_any sel 4) /\ contiguous (row_any sel).
 Proof.
   eexists. split; [vm_compute; reflexivity|]. simpl. repeat split; auto.
